@@ -14,6 +14,7 @@ import (
 	"strings"
 
 	"github.com/gittuf/gittuf/internal/attestations"
+	authorizationsv01 "github.com/gittuf/gittuf/internal/attestations/authorizations/v01"
 	"github.com/gittuf/gittuf/internal/common/set"
 	"github.com/gittuf/gittuf/internal/policy"
 	gdsse "github.com/gittuf/gittuf/internal/signerverifier/dsse"
@@ -749,9 +750,16 @@ func (h *Hist) apply(ev Event) error {
 // AuthEnvelope builds a reference authorization statement for (ref, from, to)
 // signed by the given key names.
 func AuthEnvelope(ref, from, to string, isTag bool, signers []string) (*sslibdsse.Envelope, error) {
+	return AuthEnvelopeV(ref, from, to, isTag, signers, false)
+}
+
+// AuthEnvelopeV is AuthEnvelope with a choice of the legacy v0.1 statement.
+func AuthEnvelopeV(ref, from, to string, isTag bool, signers []string, v01 bool) (*sslibdsse.Envelope, error) {
 	var stmt any
 	var err error
-	if isTag {
+	if v01 {
+		stmt, err = authorizationsv01.NewReferenceAuthorization(ref, from, to)
+	} else if isTag {
 		stmt, err = attestations.NewReferenceAuthorizationForTag(ref, from, to)
 	} else {
 		stmt, err = attestations.NewReferenceAuthorizationForCommit(ref, from, to)
@@ -780,8 +788,13 @@ func (h *Hist) ensureAtt() {
 // AddAuth stores an authorization whose STATEMENT names (au.Ref, au.From,
 // au.To) at the PATH of (au.StoredRef, au.StoredFrom, au.StoredTo).
 func (h *Hist) AddAuth(au refver.Auth, signerNames []string, isTag bool) error {
+	return h.AddAuthV(au, signerNames, isTag, false)
+}
+
+// AddAuthV is AddAuth with a choice of the legacy v0.1 statement.
+func (h *Hist) AddAuthV(au refver.Auth, signerNames []string, isTag, v01 bool) error {
 	h.ensureAtt()
-	env, err := AuthEnvelope(au.Ref, au.From, au.To, isTag, signerNames)
+	env, err := AuthEnvelopeV(au.Ref, au.From, au.To, isTag, signerNames, v01)
 	if err != nil {
 		return err
 	}
